@@ -321,7 +321,8 @@ func deadlockedInClose() bool {
 		// the lock is requested by the close-event handler that Close() itself called while holding it
 		if strings.Contains(g, "sync.(*Mutex).Lock") &&
 			(strings.Contains(g, ".onConnectionEvent") || strings.Contains(g, ".removeFromPool")) &&
-			(strings.Contains(g, "connPool).Close") || strings.Contains(g, "poolPingPong).Close")) {
+			(strings.Contains(g, "connPool).Close") || strings.Contains(g, "poolPingPong).Close") ||
+				strings.Contains(g, "poolBinding).Close") || strings.Contains(g, "poolBinding).Shutdown")) {
 			return true
 		}
 	}
@@ -797,9 +798,13 @@ func main() {
 	if *mode == "mux" {
 		mx, err := xc09.RegisterMX()
 		vh.Must(err, "register multiplex codec")
+		bd, err := xc09.RegisterBD()
+		vh.Must(err, "register binding codec")
 		for _, name := range strings.Split(*protos, ",") {
-			b := &muxBinding{name: name, codec: mx}
+			b := &muxBinding{name: name, codec: mx, bd: bd}
 			switch name {
+			case "bind":
+				b.wire = xc09.BD{}
 			case "xmux":
 				b.wire = xc09.MX{}
 			case "h2":
